@@ -133,7 +133,7 @@ def fmt_events(ev):
     parts = []
     for e in ev:
         if e[0] == 'skip':
-            parts.append('skip%d' % e[1])
+            parts.append('skip%s' % (e[1] if e[1] is not None else '<variable>'))
         elif e[0] == 'BYTES':
             parts.append('%s[size<-fields%s%s%s]' % (e[1], list(e[2]), ' consts%s' % list(e[3]) if e[3] else '', ' *bpp' if e[4] else ''))
         elif len(e) == 2:
